@@ -327,6 +327,10 @@ func checkC12(c *Ctx) {
 	for i := 0; i < c.Pick(1, 4); i++ {
 		c12RejectedThenRestart(c, c.Seed*229+uint64(i))
 	}
+	// two rounds in flight on one machine
+	for i := 0; i < c.Pick(1, 4); i++ {
+		c12TwoRoundsInFlight(c, c.Seed*233+uint64(i))
+	}
 	// the same with the shipped binary as a real process (SIGKILL, restart, replay_operations_log)
 	c.RunPartInChild("c12proc", "C12/real-binary-part-died")
 }
